@@ -771,6 +771,41 @@ fn reward_authorisation(e: &Env, t: &mut T) {
     }
 }
 
+/// (D2) an account whose authority never chose a reward destination (the state every account starts in): a third
+/// party opens the canonical token account of the all-zero wallet (anyone can) and asks for the permissionless payout
+/// into it. Nothing may be paid.
+fn unset_destination(e: &Env, t: &mut T) {
+    let w = &e.w;
+    let bank = w.banks[0].key;
+    // u1 lends bank 0 (rewarded) as well? if not, its own deposit is made here
+    let acct = e.empty_account;
+    let mut s = e.s.clone();
+    let auth = w.users[0].authority;
+    let ta = w.users[0].tokens[&w.banks[0].mint];
+    if !process_tx(&mut s, &Tx::one(ix::deposit(w.group, acct, auth, bank, ta, spl_token::id(), 1_000_000_000, None, vec![]), &[auth])).ok() {
+        t.class("unset_destination:setup_failed".into());
+        return;
+    }
+    s.advance(86_400 * 30);
+    refresh_oracles(&mut s, w);
+    let _ = process_tx(&mut s, &Tx::one(ix::settle_emissions(acct, bank), &[act::stranger()]));
+    if world::account(&s, &acct).emissions_destination_account != Pubkey::default() {
+        t.class("unset_destination:already_set".into());
+        return;
+    }
+    let zero_ata = ata(&Pubkey::default(), &e.em_mint, &spl_token::id());
+    create_token_account_at(&mut s, &w.payer, &zero_ata, &e.em_mint, &Pubkey::default(), false);
+    let v0 = world::token_amount(&s, &ix::emissions_vault(&bank, &e.em_mint));
+    let mut post = s.clone();
+    let r = process_tx(&mut post, &Tx::one(ix::withdraw_emissions_permissionless(w.group, acct, bank, e.em_mint, zero_ata, spl_token::id()), &[act::stranger()]));
+    t.cells += 1;
+    let v1 = world::token_amount(&post, &ix::emissions_vault(&bank, &e.em_mint));
+    t.class(format!("unset_destination:permissionless:{}", if r.ok() { "ok" } else { "refused" }));
+    if r.ok() && v1 < v0 {
+        t.found.push(Found { clause: "C19.rewards_only_to_chosen_destination".into(), sig: "unset_destination".into(), detail: format!("the permissionless payout paid {} reward units of an account whose authority never chose a destination into the token account of the all-zero wallet", v0 - v1), replay: json!({"model": "C19D2"}) });
+    }
+}
+
 pub fn run(tier: Tier) -> Outcome {
     let e = golden::build_env();
     let mut t = T { cells: 0, classes: BTreeMap::new(), found: vec![], samples: vec![] };
@@ -783,6 +818,7 @@ pub fn run(tier: Tier) -> Outcome {
     second_campaign(&e, &mut t);
     let states = emissions_sequences(&e, tier, &mut t) + emissions_borrow_side(&e, tier, &mut t);
     reward_authorisation(&e, &mut t);
+    unset_destination(&e, &mut t);
     let mut o = Outcome { level: "exploration".into(), ..Default::default() };
     let mut per: BTreeMap<(String, String), usize> = BTreeMap::new();
     o.found = t.found.into_iter().filter(|f| {
@@ -791,7 +827,7 @@ pub fn run(tier: Tier) -> Outcome {
         *n <= 2
     }).collect();
     let ok: u64 = t.classes.iter().filter(|(k, _)| k.ends_with(":ok") || k.contains(":ok:")).map(|(_, v)| *v).sum();
-    for need in ["collect:B6:ok:limited_by_liquidity", "collect:B6:ok:paid_in_full", "emissions:ample:Claim:ok", "emissions:nearly_exhausted:Claim:ok", "emissions:borrow_only:debt:earned", "emissions:both_sides:debt:earned", "emissions:both_sides:deposit:earned", "emissions:borrow_only:Claim:ok", "rewards:withdraw_emissions:normal:entitled:ok", "drawdown:withdraw_fees:entitled:ok", "rotated_wallet:B6:cache_stale:new_wallet:ok", "funding:spl:top_up:ok", "repoint:entitled:own_group:repointed:paid", "repoint:not_entitled:foreign_group:refused:not_paid", "funding:t22_fee1pct:top_up:ok", "funding:t22_fee_capped:top_up:ok", "rotated_wallet:B6:propagated:new_wallet:ok", "program_fees_off:canonical:ok", "program_fees_off:outsider:refused"] {
+    for need in ["collect:B6:ok:limited_by_liquidity", "collect:B6:ok:paid_in_full", "emissions:ample:Claim:ok", "emissions:nearly_exhausted:Claim:ok", "emissions:borrow_only:debt:earned", "emissions:both_sides:debt:earned", "emissions:both_sides:deposit:earned", "emissions:borrow_only:Claim:ok", "rewards:withdraw_emissions:normal:entitled:ok", "drawdown:withdraw_fees:entitled:ok", "rotated_wallet:B6:cache_stale:new_wallet:ok", "funding:spl:top_up:ok", "repoint:entitled:own_group:repointed:paid", "repoint:not_entitled:foreign_group:refused:not_paid", "funding:t22_fee1pct:top_up:ok", "funding:t22_fee_capped:top_up:ok", "rotated_wallet:B6:propagated:new_wallet:ok", "program_fees_off:canonical:ok", "program_fees_off:outsider:refused", "unset_destination:permissionless:refused"] {
         if *t.classes.get(need).unwrap_or(&0) == 0 {
             o.machinery.push(format!("vacuity guard: class {need} never occurred"));
         }
